@@ -277,6 +277,9 @@ func (r *Run) NewServer(cfg *dht.ServerConfig, local *net.UDPAddr) (*dht.Server,
 	if cfg.SendLimiter == nil {
 		cfg.SendLimiter = rate.NewLimiter(rate.Inf, 0)
 	}
+	if cfg.Exp == 0 {
+		cfg.Exp = 2 * time.Hour // as NewDefaultServerConfig does; with 0 nothing stored is ever served
+	}
 	if cfg.StartingNodes == nil {
 		cfg.StartingNodes = func() ([]dht.Addr, error) { return nil, nil }
 	}
